@@ -156,7 +156,17 @@ class C20:
             "transformed map, globe_map, cylinder_map; wrong dimension, unknown kind / backend, errors with cumulative; "
             "set_default_backend round trips; get_data / get_err_data / get_value_format directly; the time-tick helper on ranges "
             "with negative / non-multiple limits for sec / min / hour / day units in every accepted spelling, edge / centre levels "
-            "and the automatic level. Marks are read back from the artists (patches, lines, collections, images, texts, title, "
+            "and the automatic level. Every 8th case (k % 8 == 3) reuses ONE TimeTickHandler object (edge / centre / unit / automatic "
+            "level) for 2-4 calls in a row -- histograms over the same range with different inner bins, over other ranges, the same "
+            "histogram again; called directly (also with a range other than the histogram's) and through tick_handler= of matplotlib "
+            "bar / step / line / scatter / fill (also of a two-member collection in one axis) and plotly line / scatter: each call's ticks are those of the histogram and range of "
+            "that call, one label per tick, and equal to those of a never-used handler. Every 8th case (k % 8 == 5) plots a DERIVED "
+            "histogram: a 2-D histogram with pairwise different contents and different bin counts per axis, constructed from C-ordered, "
+            "Fortran-ordered or strided (non-contiguous) arrays, then a chain of T / copy / scalar * and / / normalize / h + h / "
+            "merge_bins / slicing (polar, spherical, cylindrical: copy / scale / normalize), drawn with every 2-D kind and option above "
+            "(map, image, plotly map, bar3d, surface_map, ASCII map, polar_map, globe_map, cylinder_map), or projected / selected to "
+            "1-D and drawn with the 1-D kinds; the expected marks come from the derived histogram's public bins / frequencies, and "
+            "the source histogram is snapshotted too. Marks are read back from the artists (patches, lines, collections, images, texts, title, "
             "labels, ticks), traces and captured stdout; the histogram is snapshotted before and after. "
             "non-trivial = non-zero contents; distinct = case hash")
     EXTRA_TRUST = ["matplotlib / plotly rendering, colour-map tables and layout are outside the model",
@@ -165,7 +175,8 @@ class C20:
 
     # ------------------------------------------------------------------ generators
     def gen_case(self, rng, k, tier):
-        kind = rng.choice(KINDS)
+        # two streams take a fixed share of the case indices: helper objects reused across calls, derived histograms as plot inputs
+        kind = "reuse" if k % 8 == 3 else "derived" if k % 8 == 5 else rng.choice(KINDS)
         c = getattr(self, "_gen_" + kind)(rng)
         c["tags"] = [t for t in dict.fromkeys(c["tags"])]
         return c
@@ -186,10 +197,14 @@ class C20:
             opt["plot"] = "bar"
         return opt
 
-    def _gen_mpl1(self, rng):
-        pairs, t = gen1.rising_bins(rng)
+    def _gen_mpl1(self, rng, pairs=None):
+        given = pairs is not None
+        if given:
+            t = {"gapped": not gen1.is_consecutive_exact(pairs), "tiny_gap": False}
+        else:
+            pairs, t = gen1.rising_bins(rng)
         handler = None
-        if rng.random() < 0.15:
+        if not given and rng.random() < 0.15:
             # a time axis (seconds) for the tick handler
             name, n = rng.choice([("sec", 1), ("sec", 0.5), ("sec", 5), ("min", 1)])
             w = n * SECONDS[name]
@@ -241,8 +256,11 @@ class C20:
         tags.append("bad:" + opt["bad"])
         return {"kind": "mpl1", "init": init, "opt": opt, "tags": tags}
 
-    def _gen_plotly1(self, rng):
-        pairs, t = gen1.rising_bins(rng)
+    def _gen_plotly1(self, rng, pairs=None):
+        if pairs is not None:
+            t = {"gapped": not gen1.is_consecutive_exact(pairs), "tiny_gap": False}
+        else:
+            pairs, t = gen1.rising_bins(rng)
         init = rand_hist_op(rng, pairs)
         init["keep"] = True
         if rng.random() < 0.5:
@@ -265,8 +283,11 @@ class C20:
             tags.append("opt:ticks_" + opt["ticks"])
         return {"kind": "plotly1", "init": init, "opt": opt, "tags": tags}
 
-    def _gen_ascii(self, rng):
-        pairs, t = gen1.rising_bins(rng)
+    def _gen_ascii(self, rng, pairs=None):
+        if pairs is not None:
+            t = {"gapped": not gen1.is_consecutive_exact(pairs), "tiny_gap": False}
+        else:
+            pairs, t = gen1.rising_bins(rng)
         init = rand_hist_op(rng, pairs)
         init["keep"] = True
         if all(x == "0" for x in init["freq"]):
@@ -480,6 +501,186 @@ class C20:
         init, axes = rand_nd_op(rng, d=2, names=True)
         return {"kind": "data", "dim": 2, "init": init, "flags": flags, "vf": vf, "tags": tags + ["dim:2"]}
 
+    # ---- helper objects reused across calls: one TimeTickHandler for several histograms in a row
+    def _gen_reuse(self, rng):
+        mode = rng.choice(["edge", "center"] * 3 + ["unit"] * 3 + ["auto"] * 2)
+        name, n = rng.choice([("sec", 1), ("sec", 0.5), ("sec", 5), ("min", 1), ("min", 15), ("hour", 1)])
+        w = n * SECONDS[name]
+        if mode == "unit":
+            form = rng.choice(["tuple", "str"])
+            level = {"mode": mode, "unit": [name, n], "spell": {"form": form, "text": spell_level(rng, name, n) if form == "str" else None}}
+        elif mode == "auto":
+            level = {"mode": mode, "unit": None, "spell": {"form": "auto"}}
+        else:
+            level = {"mode": mode, "unit": None, "spell": {"form": "str", "text": rng.choice([mode, mode + "s"])}}
+
+        def span():
+            lo = rng.choice([-3, 0, 0, 2, 7]) * w + rng.choice([0, 0, 0.25 * w])
+            return lo, lo + rng.choice([2, 3, 4, 6, 8]) * w
+
+        def cut(lo, hi, avoid):
+            """consecutive bins over exactly [lo, hi] whose inner edges differ from those of the edge lists in avoid"""
+            for _ in range(8):
+                k = rng.randint(1, 5)
+                if rng.random() < 0.4:
+                    inner = [i / k for i in range(1, k)]
+                else:
+                    inner = sorted(rng.sample([j / 16 for j in range(1, 16)], k - 1))
+                e = [lo] + [lo + (hi - lo) * q for q in inner] + [hi]
+                if e not in avoid:
+                    break
+            return e
+
+        ranges, edges, steps = [span()], [], []
+        for i in range(rng.randint(2, 4)):
+            how = "new_range" if i == 0 else rng.choice(["same_range"] * 3 + ["new_range", "same_hist"])
+            if how == "same_hist":
+                j = rng.randrange(len(edges))
+            else:
+                if how == "new_range":
+                    if i:
+                        ranges.append(span())
+                    r = ranges[-1]
+                else:
+                    r = rng.choice(ranges)
+                edges.append(cut(r[0], r[1], [e for e in edges if e[0] == r[0] and e[-1] == r[1]]))
+                j = len(edges) - 1
+            via = rng.choice(["direct"] * 4 + ["mpl:bar", "mpl:step", "mpl:line", "mpl:scatter", "mpl:fill", "plotly:line", "plotly:scatter",
+                                                 "mplc:" + rng.choice(["bar", "line", "scatter", "step"])])
+            st = {"h": j, "via": via, "how": how}
+            if via == "direct":
+                # the range handed to the helper: the histogram's own, or another one (the unit levels place their ticks in it)
+                lo, hi = edges[j][0], edges[j][-1]
+                st["range"] = rng.choice([[lo, hi]] * 3 + [[lo - 1.5 * w, hi + 0.75 * w], [lo + 0.5 * w, hi - 0.25 * w]])
+            steps.append(st)
+        inits = []
+        for j, e in enumerate(edges):
+            op = rand_hist_op(rng, [[e[i], e[i + 1]] for i in range(len(e) - 1)], out=j, keep=True)
+            inits.append(op)
+        tags = ["reuse", "reuse:level_" + mode, "reuse:steps_%d" % len(steps)]
+        tags += ["reuse:via_" + s["via"].split(":")[0] for s in steps] + ["reuse:" + s["how"] for s in steps[1:]]
+        return {"kind": "reuse", "level": level, "inits": inits, "steps": steps, "tags": tags}
+
+    # ---- derived histograms as plot inputs: h.T, copies, scaled, normalised, merged, sliced, sums, projections, selections,
+    #      and histograms constructed from Fortran-ordered / non-contiguous arrays
+    @staticmethod
+    def _shape_of(init):
+        return [len(b["bins"]) if b["t"] == "static" else b["count"] for b in init["axes"]]
+
+    @staticmethod
+    def _distinct_contents(rng, shape, dtype, zeros=True):
+        """pairwise different contents (so that any reordering of the bins shows), a few of them zero"""
+        size = shape[0] * shape[1]
+        vals = rng.sample(range(1, 3 * size + 2), size)
+        if zeros and size >= 3:
+            for i in rng.sample(range(size), rng.choice([0, 1, 1, 2])):
+                vals[i] = 0
+        if not dtype.startswith("int"):
+            q = rng.choice([0.25, 0.5, 1.5])
+            vals = [v * q for v in vals]
+        return [rs(v) for v in vals]
+
+    def _derive_ops(self, rng, shape, allow):
+        """a chain of derivations of a 2-D histogram (each gives a 2-D histogram again); shape is updated in place"""
+        ops = []
+        for _ in range(rng.choice([0, 1, 1, 2, 2, 3])):
+            what = rng.choice(allow)
+            if what == "T":
+                ops.append({"op": "T"})
+                shape.reverse()
+            elif what == "copy":
+                ops.append({"op": "copy"})
+            elif what == "mul":
+                c, k = rng.choice([("2", "pyint"), ("3", "pyint"), ("1/2", "pyfloat"), ("5/2", "pyfloat")])
+                ops.append({"op": "mul", "c": c, "k": k, "reflected": rng.random() < 0.3})
+            elif what == "div":
+                ops.append({"op": "div", "c": rng.choice(["2", "4"]), "k": "pyfloat"})
+            elif what == "normalize":
+                ops.append({"op": "normalize", "percent": rng.random() < 0.3})
+            elif what == "add_self":
+                ops.append({"op": "add", "a": 0, "b": 0})
+            elif what == "merge":
+                ax = rng.randrange(2)
+                if shape[ax] < 2:
+                    continue
+                am = rng.randint(2, shape[ax])
+                ops.append({"op": "merge", "amount": am, "axis": ax})
+                shape[ax] = -(-shape[ax] // am)
+            elif what == "slice":
+                idx = []
+                for ax in range(2):
+                    a = rng.randint(0, shape[ax] - 1)
+                    b = rng.randint(a + 1, shape[ax])
+                    if rng.random() < 0.4:
+                        a, b = 0, shape[ax]
+                    idx.append({"s": [a, b]})
+                    shape[ax] = b - a
+                ops.append({"op": "getitem", "index": idx})
+        return ops
+
+    def _gen_derived(self, rng):
+        target = rng.choice(["mpl2"] * 5 + ["mpl3d"] * 3 + ["polar"] * 2 + ["ascii_map"] + ["proj1"] * 3)
+        layout = rng.choice(["C", "C", "F", "F", "strided"])
+        if target == "proj1":
+            return self._gen_derived_1d(rng, layout)
+        for _ in range(6):       # different bin counts per axis: a transposition cannot go unnoticed
+            c = getattr(self, "_gen_" + target)(rng)
+            shape = self._shape_of(c["init"]) if "init" in c else [len(c["b0"]), len(c["b1"])]
+            if shape[0] != shape[1]:
+                break
+        full = list(shape)
+        if "init" in c:
+            allow = ["T", "T", "T", "copy", "mul", "div", "normalize", "add_self", "slice"]
+            if c["opt"]["plot"] != "image":
+                allow.append("merge")           # (an image needs bins of one width: merging would leave a narrower last bin)
+        else:
+            allow = ["copy", "copy", "mul", "div", "normalize"]     # (the special histograms have no transposition)
+        c["layout"] = layout
+        c["derive"] = self._derive_ops(rng, shape, allow)
+        if layout == "C" and not c["derive"]:
+            c["derive"] = [{"op": allow[0]}]
+        # (a slice may keep the empty bins only, and several plot options have no meaning for an all-zero histogram: zeros without slicing)
+        zeros = not any(d["op"] == "getitem" for d in c["derive"])
+        if "init" in c:
+            c["init"]["freq"] = self._distinct_contents(rng, full, c["init"]["dtype"], zeros)
+            if c["init"].get("err2") is not None:
+                c["init"]["err2"] = [rs(rng.randint(0, 9)) for _ in c["init"]["freq"]]
+        else:
+            c["freq"] = self._distinct_contents(rng, full, c["dtype"], zeros)
+        c["tags"] = ["derived", "derived:" + target, "layout:" + layout] + ["derive:" + d["op"] for d in c["derive"]] + c["tags"]
+        return c
+
+    def _gen_derived_1d(self, rng, layout):
+        """1-D plot kinds on a projection / a selection of a derived 2-D histogram"""
+        while True:
+            axes = [gen1.rising_bins(rng, allow_gaps=(a == 1))[0][:4] for a in range(2)]
+            if len(axes[0]) != len(axes[1]):
+                break
+        shape = [len(axes[0]), len(axes[1])]
+        dt = rng.choice(["int64", "float64", "int32"])
+        init = {"op": "of_arrays", "out": 0, "axes": [gen1.binning_json(a, form="static_obj") for a in axes],
+                "freq": self._distinct_contents(rng, shape, dt, zeros=False),
+                "err2": rng.choice([None, [rs(rng.randint(0, 9)) for _ in range(shape[0] * shape[1])]]), "missed": "0", "dtype": dt,
+                "names": rng.choice([None, ["u", "v"]]), "keep": True}
+        order = [0, 1]
+        derive = self._derive_ops(rng, list(shape), ["T", "T", "copy", "mul", "add_self"])
+        for d in derive:
+            if d["op"] == "T":
+                order.reverse()
+        ax = rng.randrange(2)
+        if rng.random() < 0.6:
+            derive.append({"op": "projection", "axes": [ax]})
+        else:
+            n_other = len(axes[order[1 - ax]])
+            derive.append({"op": "select", "axis": 1 - ax, "index": rng.randrange(n_other)})
+        pairs = axes[order[ax]]
+        gen = rng.choice([self._gen_mpl1] * 3 + [self._gen_plotly1, self._gen_ascii])
+        c = gen(rng, pairs=pairs)
+        del c["init"]
+        c["from2d"] = {"init": init, "layout": layout, "derive": derive}
+        c["tags"] = ["derived", "derived:proj1", "layout:" + layout] + ["derive:" + d["op"] for d in derive] + c["tags"]
+        return c
+
     # ------------------------------------------------------------------ implementation
     @staticmethod
     def _texts(ax):
@@ -632,7 +833,8 @@ class C20:
         b1 = np.array([[impl1.fl(l), impl1.fl(r)] for l, r in case["b1"]])
         f = np.array([impl1.fl(x) for x in case["freq"]], dtype=case["dtype"]).reshape(len(b0), len(b1))
         kw = {"radius": case["radius"]} if "radius" in case else {}
-        return cls([b0, b1], f, **kw)
+        h = cls([b0, b1], C20._relayout(f, case.get("layout")), **kw)
+        return C20._derive(h, case["derive"], []) if case.get("derive") else h
 
     @staticmethod
     def _boxes(coll):
@@ -662,6 +864,42 @@ class C20:
             qs.append({"verts": [[nrs(x) for x in v] for v in F[0]], "color": [float(x) for x in np.asarray(c.get_facecolor()).reshape(-1, 4)[0]]})
         return qs
 
+    @staticmethod
+    def _relayout(a, layout):
+        """the same logical array in another memory layout"""
+        if a is None or layout in (None, "C"):
+            return a
+        if layout == "F":
+            return np.asfortranarray(a)
+        big = np.zeros(tuple(2 * n + 1 for n in a.shape), dtype=a.dtype)      # a non-contiguous view
+        view = big[tuple(slice(1, None, 2) for _ in a.shape)]
+        view[...] = a
+        return view
+
+    @staticmethod
+    def _derive(h, ops, log):
+        st = implnd.Store(); st.set(0, h)
+        for op in ops or []:
+            if implnd.step(st, dict(op, h=0, out=0), log) == implnd.REFUSED:
+                log.append("derivation refused: " + op["op"])
+        return st.get(0)
+
+    def _hist_nd(self, spec, log):
+        """the histogram of a case: constructed from arrays in the given memory layout, then derived; also the source histogram"""
+        from physt.histogram_nd import Histogram2D
+        init, layout = spec["init"], spec.get("layout")
+        if layout in (None, "C"):
+            st = implnd.Store(); implnd.step(st, init, log); src = st.get(0)
+        else:
+            axes = [impl1.mk_binning(b) for b in init["axes"]]
+            shape = tuple(self._shape_of(init))
+            dt = np.dtype(init["dtype"])
+            f = self._relayout(impl1.arr(init["freq"], dt).reshape(shape), layout)
+            e = None if init.get("err2") is None else self._relayout(impl1.arr(init["err2"], dt).reshape(shape), layout)
+            kw = {"axis_names": init["names"]} if init.get("names") is not None else {}
+            src = Histogram2D(axes, f, errors2=e, missed=impl1.fl(init.get("missed", "0")), keep_missed=init.get("keep", True), **kw)
+        return self._derive(src, spec.get("derive"), log), src
+
     def run_impl(self, case):
         import matplotlib
         matplotlib.use("Agg")
@@ -671,7 +909,13 @@ class C20:
         finally:
             plt.close("all")
 
-    def _finish(self, out, hs, snaps, metas, snap):
+    def _finish(self, out, hs, snaps, metas, snap, src=None):
+        if src is not None and src[0] is not hs[0]:
+            # the histogram the plotted one was derived from (they may share memory): plotting leaves it alone as well
+            out["source_unchanged"] = implnd.snapn(src[0]) == src[1]
+        refused = [str(x) for x in out.pop("derive_log", []) if str(x).startswith("derivation refused")]
+        if refused:
+            out["derive_log"] = refused
         after = [snap(h) for h in hs]
         out["unchanged"] = after == snaps and metas == [dict(h.meta_data) for h in hs]
         if not out["unchanged"]:
@@ -689,7 +933,10 @@ class C20:
         import matplotlib.pyplot as plt
         log = []
         opt = case["opt"]
-        st = impl1.Store(); impl1.step(st, case["init"], log); h = st.get(0)
+        if "from2d" in case:
+            h, src = self._hist_nd(case["from2d"], log); src_before = implnd.snapn(src)
+        else:
+            st = impl1.Store(); impl1.step(st, case["init"], log); h = st.get(0); src = src_before = h
         if opt["name"]:
             h.name = opt["name"]
         if opt["title"]:
@@ -740,7 +987,64 @@ class C20:
             out["plot_error"] = f"{type(e).__name__}: {e}"[:200]
         plt.close("all")
         out["refused"][opt["bad"]] = self._try_bad(h, opt["bad"])
-        self._finish(out, [h], [before], [meta], impl1.snap1)
+        out["derive_log"] = log if "from2d" in case else []
+        self._finish(out, [h], [before], [meta], impl1.snap1, src=(src, src_before))
+        return {"outs": out, "log": log}
+
+    def _run_reuse(self, case):
+        """one TimeTickHandler object, called for several histograms in a row (directly and through tick_handler=)"""
+        import matplotlib.pyplot as plt
+        from physt.plotting.common import TimeTickHandler
+        from physt.types import HistogramCollection
+        log = []
+        st = impl1.Store()
+        for i in case["inits"]:
+            impl1.step(st, i, log)
+        hs = [st.get(k) for k in range(len(case["inits"]))]
+        snaps, metas = [impl1.snap1(h) for h in hs], [dict(h.meta_data) for h in hs]
+        out = {"refused": {}, "steps": []}
+        lvl = self._level_obj(case["level"])
+        try:
+            handler = TimeTickHandler(lvl)
+        except Exception as e:
+            out["plot_error"] = f"TimeTickHandler({lvl!r}): {type(e).__name__}: {e}"[:200]
+            handler = None
+        for k, stp in enumerate(case["steps"] if handler is not None else []):
+            h = hs[stp["h"]]
+            via, _, p = stp["via"].partition(":")
+            edges = [nrs(x) for x in [h.bins[0][0]] + [b[1] for b in h.bins]]
+            r = {"edges": edges}
+            try:
+                if via == "direct":
+                    lo, hi = stp["range"]
+                    ticks, labels = handler(h, lo, hi)
+                elif via in ("mpl", "mplc"):
+                    # (mplc: a collection of two members over the same bins in one axis -- the handler is called once per member)
+                    what = HistogramCollection(h, h * 2) if via == "mplc" else h
+                    ax = what.plot(p, backend="matplotlib", tick_handler=handler)
+                    ticks, labels = list(ax.get_xticks()), [t.get_text() for t in ax.get_xticklabels()]
+                    lo, hi = float(h.bins[0][0]), float(h.bins[-1][1])
+                    r["xlim"] = [nrs(x) for x in ax.get_xlim()]
+                    plt.close("all")
+                else:
+                    fig = h.plot(p, backend="plotly", tick_handler=handler)
+                    tv, tt = fig.layout.xaxis.tickvals, fig.layout.xaxis.ticktext
+                    ticks, labels = list(tv if tv is not None else []), list(tt if tt is not None else [])
+                    lo, hi = float(h.bins[0][0]), float(h.bins[-1][1])
+                r.update({"range": [nrs(lo), nrs(hi)], "ticks": [nrs(t) for t in ticks], "labels": [str(x) for x in labels]})
+                # the same call on a handler of the same level that has never been used
+                ft, fl_ = TimeTickHandler(lvl)(h, lo, hi)
+                r.update({"fresh_ticks": [nrs(t) for t in ft], "fresh_labels": [str(x) for x in fl_]})
+                if case["level"]["mode"] == "auto":
+                    d = TimeTickHandler.deduce_level(lo, hi)
+                    r["deduced"] = [str(d[0]), nrs(d[1])]
+            except Exception as e:
+                out["plot_error"] = f"step {k} ({stp['via']}): {type(e).__name__}: {e}"[:200]
+                plt.close("all")
+                break
+            out["steps"].append(r)
+        plt.close("all")
+        self._finish(out, hs, snaps, metas, impl1.snap1)
         return {"outs": out, "log": log}
 
     def _run_refuse(self, case):
@@ -755,7 +1059,7 @@ class C20:
         import xtermcolor
         log = []
         opt = case["opt"]
-        st = implnd.Store(); implnd.step(st, case["init"], log); h = st.get(0)
+        h, src = self._hist_nd(case, log); src_before = implnd.snapn(src)
         before, meta = implnd.snapn(h), dict(h.meta_data)
         out = {"refused": {}}
         kw = {k: opt[k] for k in ("cmap", "value_format") if opt[k]}
@@ -772,14 +1076,15 @@ class C20:
         finally:
             xtermcolor.colorize = real
         out["refused"][opt["bad"]] = self._try_bad(h, opt["bad"])
-        self._finish(out, [h], [before], [meta], implnd.snapn)
+        out["derive_log"] = log
+        self._finish(out, [h], [before], [meta], implnd.snapn, src=(src, src_before))
         return {"outs": out, "log": log}
 
     def _run_mpl2(self, case):
         import matplotlib.pyplot as plt
         log = []
         opt = case["opt"]
-        st = implnd.Store(); implnd.step(st, case["init"], log); h = st.get(0)
+        h, src = self._hist_nd(case, log); src_before = implnd.snapn(src)
         if opt.get("title"):
             h.title = opt["title"]
         before, meta = implnd.snapn(h), dict(h.meta_data)
@@ -819,7 +1124,8 @@ class C20:
             out["plot_error"] = f"{type(e).__name__}: {e}"[:200]
         plt.close("all")
         out["refused"][opt["bad"]] = self._try_bad(h, opt["bad"])
-        self._finish(out, [h], [before], [meta], implnd.snapn)
+        out["derive_log"] = log
+        self._finish(out, [h], [before], [meta], implnd.snapn, src=(src, src_before))
         return {"outs": out, "log": log}
 
     @staticmethod
@@ -865,9 +1171,9 @@ class C20:
         log = []
         opt = case["opt"]
         if "hist" in case:
-            h = self._mk_special(case)
+            h = self._mk_special(case); src = src_before = h
         else:
-            st = implnd.Store(); implnd.step(st, case["init"], log); h = st.get(0)
+            h, src = self._hist_nd(case, log); src_before = implnd.snapn(src)
         before, meta = implnd.snapn(h), dict(h.meta_data)
         out = {"refused": {}}
         p = opt["plot"]
@@ -891,7 +1197,8 @@ class C20:
             out["plot_error"] = f"{type(e).__name__}: {e}"[:200]
         plt.close("all")
         out["refused"][opt["bad"]] = self._try_bad(h, opt["bad"])
-        self._finish(out, [h], [before], [meta], implnd.snapn)
+        out["derive_log"] = log
+        self._finish(out, [h], [before], [meta], implnd.snapn, src=(src, src_before))
         return {"outs": out, "log": log}
 
     def _run_pair(self, case):
@@ -1187,6 +1494,40 @@ class C20:
             if f:
                 fails.append(f)
         return fails
+
+    def _or_reuse(self, case, o, fails):
+        """every call of a reused handler answers for the histogram and the range of THAT call"""
+        lv = case["level"]
+        mode = lv["mode"]
+        for k, (stp, r) in enumerate(zip(case["steps"], o["steps"])):
+            what = f"call {k + 1} of one TimeTickHandler ({lv['spell'].get('text') or lv['unit'] or 'automatic level'}, {stp['via']}, {stp['how']}): "
+            ticks = [ff(t) for t in r["ticks"]]
+            lo, hi = (ff(x) for x in r["range"])
+            e = [ff(x) for x in r["edges"]]
+            if len(r["labels"]) != len(ticks):
+                fails.append(f"tick_labels: {what}{len(ticks)} ticks but {len(r['labels'])} labels")
+            same = lambda got, want: len(got) == len(want) and all(abs(a - b) <= 1e-9 * max(1.0, abs(b)) for a, b in zip(got, want))
+            if mode == "unit":
+                w = lv["unit"][1] * SECONDS[lv["unit"][0]]
+                exp = multiples_inside(lo, hi, w)
+                if not same(ticks, exp):
+                    fails.append(f"ticks: {what}{len(ticks)} ticks {ticks[:8]} for the range [{lo}, {hi}] and unit {w} s; the {len(exp)} multiples inside the range are {exp[:8]}")
+            elif mode == "edge":
+                if not same(ticks, e):
+                    fails.append(f"ticks_edges: {what}ticks {ticks[:8]}, the edges of the histogram of this call are {e[:8]}")
+            elif mode == "center":
+                c = [(e[i] + e[i + 1]) / 2 for i in range(len(e) - 1)]
+                if not same(ticks, c):
+                    fails.append(f"ticks_centres: {what}ticks {ticks[:8]}, the bin centres of the histogram of this call are {c[:8]}")
+            else:
+                f_ = self._auto_ticks_fail(ticks, lo, hi, r["deduced"])
+                if f_:
+                    fails.append(what + f_)
+            if r["ticks"] != r["fresh_ticks"] or r["labels"] != r["fresh_labels"]:
+                fails.append(f"handler_reuse: {what}ticks / labels {ticks[:6]} {r['labels'][:6]} differ from those of a handler of the same level "
+                             f"used for the first time: {[ff(t) for t in r['fresh_ticks']][:6]} {r['fresh_labels'][:6]}")
+            if fails:
+                break
 
     def _or_marks1(self, p, opt, o, s, fails, patches=None, line=None, pts=None, sign=1.0, what=""):
         """the marks of one 1-D histogram drawn as kind p"""
@@ -1605,6 +1946,8 @@ class C20:
                     fails.append("accepted_invalid: plot() of a 3-D histogram accepted although the backend has no kind for 3 dimensions")
                 else:
                     fails.append(f"accepted_invalid: plot kind / backend '{name}' accepted for a {dim}-D histogram")
+        if o.get("source_unchanged") is False:
+            fails.append("histogram_modified: plotting a derived histogram changed the histogram it was derived from")
         if "plot_error" in o:
             if not (kind == "mpl2" and case["opt"]["plot"] == "image"):
                 fails.append("plot_raises: " + o["plot_error"])
@@ -1666,6 +2009,8 @@ class C20:
             self._or_backend(case, o, fails)
         elif kind == "data":
             self._or_data(case, o, fails)
+        elif kind == "reuse":
+            self._or_reuse(case, o, fails)
         # failures with the signature of a recorded open finding go last: the first failure names the case
         known = [x for x in fails if x.split(":")[0] in self.OPEN_SIGNATURES]
         return ([x for x in fails if x not in known] + known)[:6]
@@ -1684,6 +2029,8 @@ class C20:
             t.append("level_refused:" + o["refused"])
         if "default_kind" in o:
             t.append("default_kind:" + str(o["default_kind"]))
+        if o.get("derive_log"):
+            t.append("derive:refused")
         return t
 
     def matches_known(self, finding, case):
@@ -1696,6 +2043,29 @@ class C20:
     def shrink_candidates(self, case):
         """switch the options off one at a time (the histogram is kept)"""
         out = []
+        if case["kind"] == "reuse":
+            # drop one call of the handler at a time (the histograms are kept)
+            for i in range(len(case["steps"])):
+                if len(case["steps"]) > 1:
+                    c = copy.deepcopy(case)
+                    del c["steps"][i]
+                    out.append(c)
+            return out
+        spec = case.get("from2d") or case
+        if spec.get("derive") or spec.get("layout") not in (None, "C"):
+            # drop one derivation at a time (a final projection / selection stays), then the memory layout
+            key = ["from2d"] if "from2d" in case else []
+            n = len(spec.get("derive") or []) - (1 if "from2d" in case else 0)
+            for i in range(n):
+                if spec["derive"][i]["op"] in ("T", "merge", "getitem"):
+                    continue        # (these change the shape the later derivations were drawn for)
+                c = copy.deepcopy(case)
+                del (c["from2d"] if key else c)["derive"][i]
+                out.append(c)
+            if spec.get("layout") not in (None, "C"):
+                c = copy.deepcopy(case)
+                (c["from2d"] if key else c)["layout"] = "C"
+                out.append(c)
         opt = case.get("opt") or {}
         for k, v in opt.items():
             if k in ("plot", "bad", "call", "names", "width", "z") or not v:
